@@ -149,7 +149,7 @@ def exec_override(variant):
         fbytes = open(settings.DEFAULT_PATH, "rb").read()
         cfgvals = [{"t_max_diff": 0.75, "downsample": 7, "plot_linewidth": 3, "plot_export_format": "svg", "plot_usetex": True},
                    {"t_offset": -2, "align": True, "plot_fontscale": 2, "plot_statistics": ["max"], "not_a_setting_or_option": 5}][variant]
-        path = os.path.join(d, "c.json")
+        path = os.path.join(d, ["c.json", "run.cfg"][variant])     # the config file is whatever -c names
         json.dump(cfgvals, open(path, "w"))
         p = main_traj_parser.parser()
         args = p.parse_args(["tum", "a.txt", "--t_max_diff", "0.01", "--downsample", "3", "--t_offset", "1.0", "-c", path])
@@ -318,7 +318,7 @@ def exec_gen(job):
     try:
         data = main_config.generate(flat)
         d = tempfile.mkdtemp(prefix="gen_", dir=core.workdir())
-        path = os.path.join(d, "g.json")
+        path = os.path.join(d, core.name_form("g", ".json", n))
         json.dump(data, open(path, "w"))
         ns1 = p.parse_args(base + flat)
         ns2 = entry_points.merge_config(p.parse_args(base + ["-c", path]))
